@@ -41,3 +41,43 @@ def c10(res: CheckResult) -> None:
     rng = random.Random(res.seed)
     res.assumptions = COMMON_ASSUMPTIONS
     call_unit(res, "re-entrant call graphs over two functions", list(F.fam_reent(res.tier, rng)), ic)
+
+
+@check("C02")
+def c02(res: CheckResult) -> None:
+    ic = C.load_icontract()
+    rng = random.Random(res.seed)
+    res.assumptions = COMMON_ASSUMPTIONS
+    call_unit(res, "post-gate (kinds x stacks of 0..3 x truth x body outcomes incl. BaseException x sync/async)",
+              list(F.fam_post(res.tier, rng)), ic, require_outcomes=["ret", "Violation", "KI", "Exception"])
+    random_unit(res, "random programs beyond the exhaustive bounds", list(F.fam_random(res.tier, rng, "post")), ic)
+
+
+@check("C08")
+def c08(res: CheckResult) -> None:
+    ic = C.load_icontract()
+    rng = random.Random(res.seed)
+    res.assumptions = COMMON_ASSUMPTIONS
+    call_unit(res, "snapshots (kinds x 0..2 snapshots x 0..2 postconditions x pre outcome x capture flavour)",
+              list(F.fam_snap(res.tier, rng)), ic, require_outcomes=["ret", "Violation"])
+    random_unit(res, "random programs beyond the exhaustive bounds", list(F.fam_random(res.tier, rng, "snap")), ic)
+
+
+@check("C09")
+def c09(res: CheckResult) -> None:
+    ic = C.load_icontract()
+    rng = random.Random(res.seed)
+    res.assumptions = COMMON_ASSUMPTIONS
+    call_unit(res, "error forms x roles x kinds x sync/async", list(F.fam_err(res.tier, rng)), ic,
+              require_outcomes=["Violation", "ErrClass", "ErrInst", "ErrFact", "TypeError"])
+    random_unit(res, "random programs beyond the exhaustive bounds", list(F.fam_random(res.tier, rng, "err")), ic)
+
+
+@check("C16")
+def c16(res: CheckResult) -> None:
+    ic = C.load_icontract()
+    rng = random.Random(res.seed)
+    res.assumptions = COMMON_ASSUMPTIONS
+    call_unit(res, "several falsy contracts (groups, stacks, levels) x all truth assignments",
+              list(F.fam_order(res.tier, rng)), ic, require_outcomes=["Violation", "ErrInst", "ErrFact"])
+    random_unit(res, "random programs beyond the exhaustive bounds", list(F.fam_random(res.tier, rng, "order")), ic)
